@@ -500,15 +500,31 @@ package main
 //@   loop 2 invariant 0 <= idx(1) && idx(1) < len(ips1) && ip1 == ips1[idx(1)] && (found ==> (exists j int :: 0 <= j && j < len(ips2) && ip1.Equal(ips2[j]))) && (!found ==> (forall j int :: 0 <= j && j < iter ==> !ip1.Equal(ips2[j])))
 
 // the speaker's own pool lookup (the pool containing all addresses, "" if none): only its frame is needed here
+// InPoolAddr: some range of the pool contains the address. HoldsAll: the pool contains every address of the list.
+//@ pred InPoolAddr(p *config.Pool, ip net.IP) := exists c int :: 0 <= c && c < len(p.CIDR) && net.NetContains(*p.CIDR[c], ip)
+//@ pred HoldsAll(p *config.Pool, ips []net.IP) := forall i int :: 0 <= i && i < len(ips) ==> InPoolAddr(p, ips[i])
 //@ func poolFor
-//@   trusted
+//@   requires [wf] pools != nil ==> (forall n string :: (n in pools.ByName) ==> n != "" && pools.ByName[n] != nil && (forall c int :: 0 <= c && c < len(pools.ByName[n].CIDR) ==> pools.ByName[n].CIDR[c] != nil))
+//@   ensures [found] result != "" ==> pools != nil && len(ips) > 0 && (result in pools.ByName) && HoldsAll(pools.ByName[result], ips)
+//@   ensures [none] result == "" && pools != nil && len(ips) > 0 ==> (forall n string :: (n in pools.ByName) ==> !HoldsAll(pools.ByName[n], ips))
 //@   modifies nothing
+//@   loop 1 binds pname
+//@   loop 1 invariant len(ips) > 0 ==> (forall n string :: (n in visited) ==> !HoldsAll(pools.ByName[n], ips))
+//@   loop 2 binds ip
+//@   loop 2 invariant (curkey(1) in pools.ByName) && p == pools.ByName[curkey(1)] && pname == curkey(1) && p != nil
+//@   loop 2 invariant len(ips) > 0 ==> (forall n string :: (n in visited(1)) && n != curkey(1) ==> !HoldsAll(pools.ByName[n], ips))
+//@   loop 2 invariant iter > 0 ==> cnt != len(ips)
+//@   loop 2 invariant 0 <= cnt && cnt <= iter && (cnt == iter ==> (forall k int :: 0 <= k && k < iter ==> InPoolAddr(p, ips[k]))) && (cnt < iter ==> (exists k int :: 0 <= k && k < iter && !InPoolAddr(p, ips[k])))
+//@   loop 3 binds cidr
+//@   loop 3 invariant forall c int :: 0 <= c && c < iter ==> !net.NetContains(*p.CIDR[c], ip)
+//@   loop 3 invariant 0 <= idx(2) && idx(2) < len(ips) && sameSlice(ip, ips[idx(2)])
 
 // controller.SetBalancer (speaker): nothing stays announced for a Service that was deleted, is not a LoadBalancer, has no
 // (valid) address or whose address lies in no pool; if the addresses changed the old announcement is withdrawn first;
 // per protocol the flag then follows the handler's decision (handleService [flag]).
 //@ func (*controller).SetBalancer
 //@   requires CtlInv(c) && MetricsOK() && c.client != nil
+//@   requires [cfgWf] c.config != nil && c.config.Pools != nil ==> (forall n string :: (n in c.config.Pools.ByName) ==> n != "" && c.config.Pools.ByName[n] != nil && (forall k int :: 0 <= k && k < len(c.config.Pools.ByName[n].CIDR) ==> c.config.Pools.ByName[n].CIDR[k] != nil))
 //@   ensures [inv] CtlInv(c)
 //@   ensures [deleted] (svc == nil || svc.Spec.Type != "LoadBalancer") && result != controllers.SyncStateError ==> (forall p config.Proto :: !c.announced[p][name]) && !(name in c.svcIPs)
 //@   ensures [noAddress] svc != nil && svc.Spec.Type == "LoadBalancer" && c.config != nil && len(svc.Status.LoadBalancer.Ingress) == 0 && result != controllers.SyncStateError ==>
@@ -517,6 +533,8 @@ package main
 //@   ensures [ips] forall s string :: s != name ==> (s in c.svcIPs) == old(s in c.svcIPs) && sameSlice(c.svcIPs[s], old(c.svcIPs[s]))
 //@   modifies map[string]bool, map(c.svcIPs), fresh map[string]string, fresh []interface{}, fresh []net.IP
 //@   assert before deleteBalancer#3: [invalid] true
+//@   assert before deleteBalancer#5: [whyNotAllowed] c.config.Pools == nil || len(lbIPs) == 0 || (forall n string :: (n in c.config.Pools.ByName) ==> !HoldsAll(c.config.Pools.ByName[n], lbIPs))
+//@   assert before handleService: [poolHolds] pool != nil && (poolName in c.config.Pools.ByName) && pool == c.config.Pools.ByName[poolName] && HoldsAll(pool, lbIPs)
 //@   assert after handleService: [self] forall i int :: { lbIPs[i] } 0 <= i && i < len(lbIPs) ==> lbIPs[i].Equal(lbIPs[i])
 //@   assert after handleService: [selfMatch] IPsMatch(lbIPs, lbIPs)
 //@   assert after handleService: [stillMatch] (name in c.svcIPs) ==> IPsMatch(lbIPs, c.svcIPs[name])
